@@ -657,16 +657,39 @@ def run_filter_blocks(ctx, res, jinja2, dist, nontrivial):
     wraps = {"static": ("", ""), "select": ("", ""), "block": ("{% autoescape true %}", "{% endautoescape %}"),
              "volatile": ("{% autoescape flag %}", "{% endautoescape %}"), "volatile_on": ("{% autoescape flag %}", "{% endautoescape %}"),
              "static:async": ("", ""), "volatile:async": ("{% autoescape flag %}", "{% endautoescape %}")}
+    # chains: a second filter applied to the first one's result — the contract is the composition of the Lean filter models in
+    # order, the buffer entering the FIRST filter as Markup(body)
+    chain_reqs, chain_jobs = [], []
     for i, ((f, targs, b, data), rep) in enumerate(zip(jobs, replies)):
+        if rep[0] != "ok" or i % 2:
+            continue
+        v1 = [Atom(str(rep[1][0])), rep[1][1]]
+        if i % 4 == 0:
+            f2, t2, req2 = "replace", "' ', y", [Atom("c24"), Atom("replace"), True, v1, V(" "), V(data["y"]), Atom("none")]
+        else:
+            f2, t2, req2 = "indent", "y, true", [Atom("c24"), Atom("indent"), v1, [Atom("str"), V(data["y"])], True, False]
+        if wire_ok(core.sx(req2)):
+            chain_reqs.append(req2)
+            chain_jobs.append((f + "(" + targs + ")|" + f2 + "(" + t2 + ")", f + "|" + f2, b, data))
+    chain_replies = core.driver_batch(chain_reqs)
+    todo = [(f + "(" + targs + ")", f, b, data, rep) for (f, targs, b, data), rep in zip(jobs, replies)] + \
+           [(call, label, b, data, rep) for (call, label, b, data), rep in zip(chain_jobs, chain_replies)]
+    esc2_reqs, esc2_idx = [], {}
+    for i, (_, _, _, _, rep) in enumerate(todo):
+        if rep[0] == "ok" and str(rep[1][0]) == "plain":
+            esc2_idx[i] = len(esc2_reqs)
+            esc2_reqs.append([Atom("c24"), Atom("escape"), rep[1][1]])
+    esc2 = core.driver_batch(esc2_reqs)
+    for i, (call, label, b, data, rep) in enumerate(todo):
         if rep[0] == "oom":
             continue
         if rep[0] == "err":
             want = "raised"
         else:
-            want = rep[1][1] if str(rep[1][0]) == "markup" else esc[esc_idx[i]][1][0]
+            want = rep[1][1] if str(rep[1][0]) == "markup" else esc2[esc2_idx[i]][1][0]
         for mode in (BLOCK_MODES if not ctx.quick else [BLOCK_MODES[i % len(BLOCK_MODES)], "volatile"]):
-            for form, src in (("filter-block", "{% filter " + f + "(" + targs + ") %}" + b + "{% endfilter %}"),
-                              ("filtered-set-block", "{% set v | " + f + "(" + targs + ") %}" + b + "{% endset %}{{ v }}")):
+            for form, src in (("filter-block", "{% filter " + call + " %}" + b + "{% endfilter %}"),
+                              ("filtered-set-block", "{% set v | " + call + " %}" + b + "{% endset %}{{ v }}")):
                 full = wraps[mode][0] + src + wraps[mode][1]
                 env = envs[mode]
                 try:
@@ -679,11 +702,11 @@ def run_filter_blocks(ctx, res, jinja2, dist, nontrivial):
                 except Exception as e:  # noqa
                     out = "raised"
                 renders += 1
-                dist["filter-block"] = dist.get("filter-block", 0) + 1
-                nontrivial.add(("filter-block", f, targs, b, data["w"], mode, form))
+                dist["filter-block" + ("-chain" if "|" in label else "")] = dist.get("filter-block" + ("-chain" if "|" in label else ""), 0) + 1
+                nontrivial.add(("filter-block", call, b, data["w"], mode, form))
                 if out != want:
-                    res.violate(f"C24:{form}:{f}", f"{full!r} with w={data['w']!r} y={data['y']!r} ({mode}) renders {out!r}; contract (filter applied to the "
-                                f"Markup body, plain arguments escaped, result escaped on output) {want!r}",
+                    res.violate(f"C24:{form}:{label}", f"{full!r} with w={data['w']!r} y={data['y']!r} ({mode}) renders {out!r}; contract (filters applied in "
+                                f"order, the first to the Markup body, plain arguments escaped, result escaped on output) {want!r}",
                                 {"src": full, "data": data, "mode": mode, "autoescape_default": mode in ("static", "volatile_on", "static:async")})
     return renders
 
